@@ -129,6 +129,10 @@ TSig ==
           /\ Judge({<<"EXT", sig' = Ev.sig>>})
        \/ /\ Ev.site = "remote.answer" /\ ap = "offerMade" /\ A_SetRemote
           /\ Judge({<<"EXT", sig' = Ev.sig>>})
+       \/ /\ Ev.site = "remote.offer" /\ ap = "init" /\ A_SetRemoteOffer
+          /\ Judge({<<"EXT", sig' = Ev.sig>>})
+       \/ /\ Ev.site = "local.answer" /\ ap = "haveOffer" /\ A_SetLocalAnswer
+          /\ Judge({<<"EXT", sig' = Ev.sig>>})
        \/ \* a commit that lands after close() has published Closed
           /\ sig = "Closed"
           /\ Judge({<<"C17.Stable", Ev.sig = "Closed">>})
